@@ -180,6 +180,23 @@ func (k *keyManagementContext) macKeysToDisclose() []macKey {
 	return ret
 }
 
+// maxMACKeysAwaitingDisclosure bounds the MAC keys kept for disclosure by a conversation that never gets
+// to send a data message (they are only ever dropped by sending): the oldest ones are erased instead
+const maxMACKeysAwaitingDisclosure = 16
+
+func (k *keyManagementContext) forgetOldestMACKeysOver(max int) {
+	if len(k.oldMACKeys) <= max {
+		return
+	}
+	kept := make([]macKey, max)
+	drop := len(k.oldMACKeys) - max
+	for i := 0; i < drop; i++ {
+		k.oldMACKeys[i].wipe()
+	}
+	copy(kept, k.oldMACKeys[drop:])
+	k.oldMACKeys = kept
+}
+
 func (k *keyManagementContext) revealMACKeys() []macKey {
 	ret := k.oldMACKeys
 	k.oldMACKeys = []macKey{}
